@@ -90,6 +90,18 @@ def load_modern_tags():
     return Crystal.from_cif_string(text)
 
 
+def load_both_tags():
+    """r3c_example.cif carrying the symmetry loop twice, under the legacy AND the current dictionary tag (as files converted between
+    dictionary versions do)"""
+    from chmpy.crystal import Crystal
+    text = (core.SRC / "tests" / "test_files" / "r3c_example.cif").read_text()
+    i = text.index("loop_\n_symmetry_equiv_pos_as_xyz")
+    j = text.index("loop_", i + 5)
+    block = text[i:j]
+    text = text[:j] + block.replace("_symmetry_equiv_pos_as_xyz", "_space_group_symop_operation_xyz") + text[j:]
+    return Crystal.from_cif_string(text)
+
+
 def load(name):
     from chmpy.crystal import Crystal
     return Crystal.load(str(core.SRC / "tests" / "test_files" / name))
@@ -244,15 +256,32 @@ def histories(ctx, maxlen, nrandom, qs):
     return out
 
 
+FALLBACK_SLOTS = ["_unit_cell_atom_dict", "_uc_graph", "_unit_cell_molecules", "_symmetry_unique_molecules"]
+
+
 def _all(ctx, budget):
-    slots = gen_cc.scan()["slots"]
+    try:
+        slots = gen_cc.scan()["slots"]
+    except core.TieBroken:
+        # the memoisation pattern is no longer recognised (reported by gen/correspond): the search on the real code goes on, the
+        # occupancy strings it prints are only used by the correspondence
+        slots = FALLBACK_SLOTS
     plans = [(synthetic, "synthetic R-3", histories(ctx, 3 if budget == "quick" else 4, 150 if budget == "quick" else 1500, QUERIES[:6]))]
+    # "switch sandwiches": something memoised in one setting, something else asked in the other setting, a third thing asked back in
+    # the first (all triples of queries, both directions)
+    sand = [(("q", q1), ("sw", a), ("q", q2), ("sw", b), ("q", q3)) for (a, b) in (("R", "H"), ("H", "R"))
+            for q1 in QUERIES[:6] for q2 in QUERIES[:6] for q3 in QUERIES[:6]]
+    sand += [(("sw", "R"),) + h for h in sand if h[1] == ("sw", "H")]
+    plans.append((synthetic, "synthetic R-3, switch sandwiches", sand))
     mq = ["unit_cell_molecules", "symmetry_unique_molecules", "unit_cell_atoms"]
     plans.append((synthetic_split, "synthetic R-3, asymmetric unit split over two molecules", histories(ctx, 3, 40 if budget == "quick" else 400, mq)))
     plans.append((synthetic_disorder, "P1 with two half-occupied sites on one position",
                   [(("q", "unit_cell_atoms"), ("q", "unit_cell_atoms"), ("q", "to_cif_string")), (("q", "density"), ("copy", None), ("q", "unit_cell_atoms")),
                    (("q", "to_cif_string"), ("q", "unit_cell_atoms"), ("q", "to_cif_string"))]))
     plans.append((load_modern_tags, "r3c_example.cif with _space_group_symop_* tags",
+                  [(("q", "to_cif_string"), ("sw", "R"), ("q", "to_cif_string"), ("q", "unit_cell_atoms")),
+                   (("sw", "R"), ("q", "to_cif_string"), ("sw", "H"), ("q", "to_cif_string"))]))
+    plans.append((load_both_tags, "r3c_example.cif with the symmetry loop under both the legacy and the current tag",
                   [(("q", "to_cif_string"), ("sw", "R"), ("q", "to_cif_string"), ("q", "unit_cell_atoms")),
                    (("sw", "R"), ("q", "to_cif_string"), ("sw", "H"), ("q", "to_cif_string"))]))
     if budget != "quick":
